@@ -88,6 +88,31 @@ func (o Outcome) String() string {
 type Logger struct {
 	mu  sync.Mutex
 	Log []string
+	// Plain: the global L is an embedder-defined callable object that implements only Object.Call (not
+	// CallEx), which the VM calls through its plain object-call path.
+	Plain bool
+}
+
+// PlainCallable is a callable Object that is not an ExCallerObject.
+type PlainCallable struct {
+	ugo.ObjectImpl
+	F func(args ...ugo.Object) (ugo.Object, error)
+}
+
+func (*PlainCallable) TypeName() string { return "plainCallable" }
+func (*PlainCallable) String() string   { return "<plainCallable>" }
+func (*PlainCallable) IsFalsy() bool    { return false }
+func (*PlainCallable) CanCall() bool    { return true }
+func (p *PlainCallable) Call(args ...ugo.Object) (ugo.Object, error) {
+	return p.F(args...)
+}
+
+// Callable returns the object bound to the global L.
+func (l *Logger) Callable() ugo.Object {
+	if l.Plain {
+		return &PlainCallable{F: l.Func().Value}
+	}
+	return l.Func()
 }
 
 func (l *Logger) Func() *ugo.Function {
@@ -112,7 +137,7 @@ func Globals(base ugo.Map, lg *Logger) ugo.Map {
 		g = base.Copy().(ugo.Map)
 	}
 	if lg != nil {
-		g["L"] = lg.Func()
+		g["L"] = lg.Callable()
 	}
 	return g
 }
